@@ -453,7 +453,8 @@ def check_C15(ctx):
     invs = ["InvC15", "InvC04x", "InvC12"]
     for (cnt, calls, off) in ([(60, 12, 0)] if ctx.quick() else [(600, 16, 0), (100, 30, 1)]):
         out = ctx.fresh("as", "ndjson")
-        st = run_bin(ctx, "exec", ["async", "--seed", ctx.seed * 1000 + off, "--count", cnt, "--calls", calls, "--out", out], timeout=1800)
+        st = run_bin(ctx, "exec", ["async", "--seed", ctx.seed * 1000 + off, "--count", cnt, "--calls", calls, "--ppanic", 0.15,
+                                   "--out", out], timeout=1800)
         ctx.cov["impl_runs"].append({"kind": "impl->spec async dispatcher sessions (caller call sequences, background systems held inside run)",
                                      "programs": st["programs"], "calls": st["calls"], "events": st["events"]})
         ctx.cov["traces_validated_against_impl"] += st["programs"]
